@@ -74,7 +74,7 @@ CHECKS = {
         "category": "model_checking",
         "text": "ClientLoop.tla models MqttState and the EventLoop (request gate, pending, clean, reconnect with and without session) against an adversarial broker with a failure possible in every state; TLC checks NoLoss/NoLostRelease exhaustively for limit 2 (v4 and v5). The model is bound to the code in both directions: TLC-generated call sequences are replayed into the real rumqttc::MqttState and rumqttc::v5::MqttState with every observable compared, and the real EventLoop (both versions) is driven over an in-memory transport under paused time by TLC-generated and seeded random stimulus scripts (limits 2 and 100) whose recorded traces TLC validates against ClientLoopTrace.tla with this property's invariants evaluated in every state.",
         "design_ref": "DESIGN.md section 6 / C02",
-        "note": "Trusted: ClientState.tla/ClientLoop.tla as transcription of state.rs/eventloop.rs (bound by call-by-call equality replay of MqttState and by trace validation of the real EventLoop), TLC, the scripted in-memory broker of the harness. Exhaustive only for limits 2-3 and a handful of messages; limit 100 sampled by validated traces. v5 reason codes other than success and topic aliases are not modelled.",
+        "note": "Trusted: ClientState.tla/ClientLoop.tla as transcription of state.rs/eventloop.rs (bound by call-by-call equality replay of MqttState and by trace validation of the real EventLoop), TLC, the scripted in-memory broker of the harness. Exhaustive only for limits 2-3 and a handful of messages; limit 100 sampled by validated traces. v5 acknowledgements are modelled with two reason classes (success / failure code); topic aliases are not modelled.",
         "technique": "TLC model checking of ClientLoop.tla + spec->impl replay into MqttState + TLC trace validation of real EventLoop executions with the property invariants evaluated on every trace state",
     },
     "C07": {
@@ -82,15 +82,15 @@ CHECKS = {
         "category": "model_checking",
         "text": "Same model; TLC checks id range, uniqueness among unacknowledged publishes, window bound, that the counter the gate reads never exceeds the true number of unacknowledged publishes, that channel requests are only taken through an open gate and that a pending collision is always resolvable (v4 and v5 incl. receive maximum lowered on reconnect). The model is bound to the code in both directions: TLC-generated call sequences are replayed into the real rumqttc::MqttState and rumqttc::v5::MqttState with every observable compared, and the real EventLoop (both versions) is driven over an in-memory transport under paused time by TLC-generated and seeded random stimulus scripts (limits 2 and 100) whose recorded traces TLC validates against ClientLoopTrace.tla with this property's invariants evaluated in every state.",
         "design_ref": "DESIGN.md section 6 / C07",
-        "note": "Trusted: ClientState.tla/ClientLoop.tla as transcription of state.rs/eventloop.rs (bound by call-by-call equality replay of MqttState and by trace validation of the real EventLoop), TLC, the scripted in-memory broker of the harness. Exhaustive only for limits 2-3 and a handful of messages; limit 100 sampled by validated traces. v5 reason codes other than success and topic aliases are not modelled.",
+        "note": "Trusted: ClientState.tla/ClientLoop.tla as transcription of state.rs/eventloop.rs (bound by call-by-call equality replay of MqttState and by trace validation of the real EventLoop), TLC, the scripted in-memory broker of the harness. Exhaustive only for limits 2-3 and a handful of messages; limit 100 sampled by validated traces. v5 acknowledgements are modelled with two reason classes (success / failure code); topic aliases are not modelled.",
         "technique": "TLC model checking of ClientLoop.tla + spec->impl replay into MqttState + TLC trace validation of real EventLoop executions with the property invariants evaluated on every trace state",
     },
     "C10": {
         "bins": ["client_sm", "client_loop"],
         "category": "model_checking",
-        "text": "Same model with every broker packet kind and ids 0..limit+1; TLC checks on every transition that Incoming events equal the processed packets in order and that written packets and Outgoing announcements correspond one to one; replies to QoS1/QoS2/PUBREL and error results for unsolicited acks are part of the transcription that is bound to the code by the MqttState replay (manual acks on and off). The model is bound to the code in both directions: TLC-generated call sequences are replayed into the real rumqttc::MqttState and rumqttc::v5::MqttState with every observable compared, and the real EventLoop (both versions) is driven over an in-memory transport under paused time by TLC-generated and seeded random stimulus scripts (limits 2 and 100) whose recorded traces TLC validates against ClientLoopTrace.tla with this property's invariants evaluated in every state.",
+        "text": "Same model with every broker packet kind (v5: acknowledgements with success and with failure reason codes) and ids 0..limit+1; TLC checks on every transition that Incoming events equal the processed packets in order and that written packets and Outgoing announcements correspond one to one; replies to QoS1/QoS2/PUBREL and error results for unsolicited acks are part of the transcription that is bound to the code by the MqttState replay (manual acks on and off). The model is bound to the code in both directions: TLC-generated call sequences are replayed into the real rumqttc::MqttState and rumqttc::v5::MqttState with every observable compared, and the real EventLoop (both versions) is driven over an in-memory transport under paused time by TLC-generated and seeded random stimulus scripts (limits 2 and 100) whose recorded traces TLC validates against ClientLoopTrace.tla with this property's invariants evaluated in every state.",
         "design_ref": "DESIGN.md section 6 / C10",
-        "note": "Trusted: ClientState.tla/ClientLoop.tla as transcription of state.rs/eventloop.rs (bound by call-by-call equality replay of MqttState and by trace validation of the real EventLoop), TLC, the scripted in-memory broker of the harness. Exhaustive only for limits 2-3 and a handful of messages; limit 100 sampled by validated traces. v5 reason codes other than success and topic aliases are not modelled.",
+        "note": "Trusted: ClientState.tla/ClientLoop.tla as transcription of state.rs/eventloop.rs (bound by call-by-call equality replay of MqttState and by trace validation of the real EventLoop), TLC, the scripted in-memory broker of the harness. Exhaustive only for limits 2-3 and a handful of messages; limit 100 sampled by validated traces. v5 acknowledgements are modelled with two reason classes (success / failure code); topic aliases are not modelled.",
         "technique": "TLC model checking of ClientLoop.tla + spec->impl replay into MqttState + TLC trace validation of real EventLoop executions with the property invariants evaluated on every trace state",
     },
     "C11": {
@@ -98,13 +98,13 @@ CHECKS = {
         "category": "model_checking",
         "text": "Same model with ghosts for send order and carried-over requests; TLC checks replay-first, clean-start-drops-pending and (v4, in-order QoS1 class) retransmission order = original send order, including repeated failures during replay and id wrap-around. The model is bound to the code in both directions: TLC-generated call sequences are replayed into the real rumqttc::MqttState and rumqttc::v5::MqttState with every observable compared, and the real EventLoop (both versions) is driven over an in-memory transport under paused time by TLC-generated and seeded random stimulus scripts (limits 2 and 100) whose recorded traces TLC validates against ClientLoopTrace.tla with this property's invariants evaluated in every state.",
         "design_ref": "DESIGN.md section 6 / C11",
-        "note": "Trusted: ClientState.tla/ClientLoop.tla as transcription of state.rs/eventloop.rs (bound by call-by-call equality replay of MqttState and by trace validation of the real EventLoop), TLC, the scripted in-memory broker of the harness. Exhaustive only for limits 2-3 and a handful of messages; limit 100 sampled by validated traces. v5 reason codes other than success and topic aliases are not modelled.",
+        "note": "Trusted: ClientState.tla/ClientLoop.tla as transcription of state.rs/eventloop.rs (bound by call-by-call equality replay of MqttState and by trace validation of the real EventLoop), TLC, the scripted in-memory broker of the harness. Exhaustive only for limits 2-3 and a handful of messages; limit 100 sampled by validated traces. v5 acknowledgements are modelled with two reason classes (success / failure code); topic aliases are not modelled.",
         "technique": "TLC model checking of ClientLoop.tla + spec->impl replay into MqttState + TLC trace validation of real EventLoop executions with the property invariants evaluated on every trace state",
     },
     "C18": {
         "bins": ["client_keepalive"],
         "category": "model_checking",
-        "text": "Keepalive.tla is a discrete-time model (one tick = 1/K of the keep-alive interval) of the event loop's keep-alive timer, the await_pingresp flag, a broker that answers each PINGREQ after 0..2K ticks or never, other traffic, keep-alive zero and a stalled handshake against the connection timeout. TLC checks for K = 0,2,3 (v4) and 5 (v5) (thorough: more values): a PINGREQ in every interval, a silent broker reported no later than the second interval, no keep-alive failure while every reply came within the interval, no ping with keep-alive zero, timeout exactly at the configured time. TLC-generated broker schedules are replayed into the real EventLoop (both versions) over the in-memory transport under paused tokio time; the per-tick record of what the client did (PINGREQ seen by the broker, failure reported, PINGRESP delivered) is validated by TLC against KeepaliveTrace.tla with the invariants evaluated in every state.",
+        "text": "Keepalive.tla is a discrete-time model (one tick = 1/K of the keep-alive interval) of the event loop's keep-alive timer, the await_pingresp flag, a broker that answers each PINGREQ after 0..2K ticks or never, other traffic, keep-alive zero, a stalled handshake against the connection timeout, and a second connection made by the same event loop after a reported failure (the outstanding-ping flag must not survive the reconnect). TLC checks for K = 0,2,3 (v4) and 5 (v5) (thorough: more values): a PINGREQ in every interval, a silent broker reported no later than the second interval, no keep-alive failure while every reply came within the interval, no ping with keep-alive zero, timeout exactly at the configured time. TLC-generated broker schedules are replayed into the real EventLoop (both versions) over the in-memory transport under paused tokio time; the per-tick record of what the client did (PINGREQ seen by the broker, failure reported, PINGRESP delivered) is validated by TLC against KeepaliveTrace.tla with the invariants evaluated in every state.",
         "design_ref": "DESIGN.md section 6 / C18",
         "note": "Trusted: Keepalive.tla, TLC, tokio's paused clock (virtual time, one tick = one second), the scripted broker of the harness. A reply landing exactly on a timer tick is left undecided (both outcomes accepted).",
         "technique": "TLC model checking of a discrete-time TLA+ model + spec->impl replay of TLC-generated broker schedules with TLC trace validation of the recorded ticks",
